@@ -119,6 +119,8 @@ static void shadow_write_json_file(const char *path, const ShadowFailure *fails,
 /* Forward declarations */
 static Value eval_expression(ASTNode *expr, Environment *env);
 static Value eval_statement(ASTNode *stmt, Environment *env);
+/* set when a block evaluated as an expression (match arm) executed a `return` */
+static bool g_block_expr_hit_return = false;
 static Value create_dyn_array(DynArray *arr);
 
 static DynArray* eval_dyn_array_binop(DynArray *a, DynArray *b, TokenType op);
@@ -4105,6 +4107,8 @@ static Value eval_expression(ASTNode *expr, Environment *env) {
                 result = eval_statement(expr->as.block.statements[i], env);
                 /* If statement returned a value, propagate it immediately */
                 if (result.is_return) {
+                    /* Remember it: a match used as a statement must return from the function */
+                    g_block_expr_hit_return = true;
                     /* Clear the return flag since we're handling it */
                     result.is_return = false;
                     result.is_break = false;
@@ -4530,6 +4534,18 @@ static Value eval_statement(ASTNode *stmt, Environment *env) {
         case AST_SHADOW:
             /* Function and shadow definitions are handled at program level */
             return create_void();
+
+        case AST_MATCH: {
+            /* match used as a statement: a `return` executed inside an arm leaves the
+             * enclosing function (as in compiled code), it is not just the arm's value */
+            g_block_expr_hit_return = false;
+            Value match_result = eval_expression(stmt, env);
+            if (g_block_expr_hit_return) {
+                g_block_expr_hit_return = false;
+                match_result.is_return = true;
+            }
+            return match_result;
+        }
 
         default:
             /* Expression statements */
